@@ -51,6 +51,9 @@ REGIONS = {
     'routers': dict(routers=1.0),
     'renege': dict(renege=1.0),
     'preempt': dict(prio=1.0, preempt=1.0, noblock=True),
+    'renege_preempt': dict(renege=1.0, prio=1.0, preempt=1.0, noblock=True, multiclass=True),
+    'prio_reroute': dict(prio=1.0, preempt=1.0, reroute=True, multiclass=True),
+    'sched_reroute': dict(sched=1.0, schedpre=1.0, reroute=True),
     'preempt_block': dict(prio=1.0, preempt=1.0, block=0.7),
     'sched': dict(sched=1.0, noblock=True),
     'sched_block': dict(sched=1.0, block=0.8),
